@@ -25,6 +25,7 @@ class SourceSeg(Segment):
         g = I.st.ghost
         g['live'] = VInt(z3.Int('live0'))
         g['run_calls'] = VInt(0)
+        g['gathered'] = VTuple([])        # what the last asyncio.gather of this segment was given (nothing yet)
         stopped = z3.Bool('stopped0')
         I.st.assume(z3.And(g['live'].t >= 0, g['live'].t <= 1))
         I.st.assume(z3.Implies(z3.Not(stopped), g['live'].t == 1))
@@ -34,7 +35,8 @@ class SourceSeg(Segment):
         return {'self': selfv}
 
     def globals(self):
-        return {'asyncio': VBuiltin('asyncio'), 'gen': VBuiltin('gen')}
+        # module-level names of streamz/sources.py
+        return {'asyncio': VBuiltin('asyncio'), 'gen': VBuiltin('gen'), 'isawaitable': VBuiltin('inspect.isawaitable')}
 
     def summaries(self):
         d = Segment.summaries(self)
@@ -242,7 +244,8 @@ class FromPeriodicRun(SourceSeg):
         return f
 
     def clauses(self):
-        return [Clause('C18.one_emission_per_cycle_then_waits_for_downstream', ['C18', 'C03'], when='yield:1',
+        return [Clause('C18.one_emission_per_cycle_then_waits_for_downstream', ['C18', 'C03'], when='normal',
+                       note='wherever the coroutine first suspends (or if it returns): it has emitted once and is waiting for exactly that emission',
                        text='len(emitted) == 1 and len(gathered) == 1 and gathered[0] == emit_rets[0] and len(sleeps) == 0')]
 
 
